@@ -1,4 +1,6 @@
 """registry — which rules decide which clauses of which property (DESIGN §5)."""
+import copy
+
 import sxlib
 
 _cache = {}
@@ -9,27 +11,31 @@ def _memo(name, cfg, fn):
     if k not in _cache:
         _cache[k] = fn(cfg)
     obs, st = _cache[k]
-    # hand out copies so that per-property re-scoping cannot interfere
-    import copy
     return [copy.copy(o) for o in obs], dict(st or {})
 
 
-def _rule(name, modname, **kw):
+def _rule(name, modname, func="obligations", **kw):
     def run(cfg, tier):
         mod = __import__(modname)
-        return _memo(name, cfg, lambda c: mod.obligations(sxlib.program(c)))
+        return _memo(name, cfg, lambda c: getattr(mod, func)(sxlib.program(c)))
     d = {"name": name, "run": run}
     d.update(kw)
     return d
 
 
 R_CHK = _rule("R-CHK", "r_chk")
+R_OBL = _rule("R-OBL", "r_obl")
+R_RED = _rule("R-RED", "r_obl", "red_obligations")
+R_FLOW = _rule("R-FLOW", "r_flow")
+
+DECODE = [R_CHK, R_OBL, R_RED]
 
 ALL_CFG = ["K0", "K1", "K2", "K3"]
 
 _COMMON_ASSUME = [
-    "the clang 14 AST/CFG of src/secp256k1.c (with ENABLE_MODULE_RECOVERY added) is the program analysed",
-    "a passing check establishes the listed structural obligations (each a necessary condition of the property), not the behavioural property itself",
+    "the clang 14 AST/CFG of src/secp256k1.c (all modules incl. ENABLE_MODULE_RECOVERY, which the pinned build omits) is the program analysed",
+    "a passing check establishes the listed structural obligations (each a necessary condition of the property) on every path / call site, not the behavioural property itself",
+    "exception and role tables in /verif/tables were reviewed by reading the code; each entry carries its reason",
 ]
 
 PROPERTIES = {}
@@ -43,7 +49,57 @@ def _prop(pid, rules, explanation, not_decided, **kw):
     PROPERTIES[pid] = d
 
 
-_prop("C17", [R_CHK],
-      "Half-aggregation: every fallible decode in the module (s < n, r_i < p and liftable, key loads) has its failure "
-      "indicator reaching a branch or the verdict on the def-use chains of the CFG.",
+_DEC = ("R-CHK: the failure indicator of every fallible decode (overflow flag / zero return) reaches a branch or the verdict on every path "
+        "before it is overwritten; R-OBL: each untrusted parameter is still consumed by the decoders and validity tests frozen in "
+        "tables/obligations.json (interprocedural parameter-rooted value flow); R-RED: raw caller bytes are decoded by reduction only in listed roles. ")
+
+_prop("C01", DECODE + [R_FLOW],
+      "ECDSA: " + _DEC + "R-FLOW: RFC 6979 is keyed with the scalar-decoded message, never the raw bytes. Recovery module analysed although the pinned build omits it.",
+      "that the equation computed is the ECDSA equation; low-S of produced signatures; RFC 6979 byte-exactness; recover(sign) == pubkey (all 256-bit arithmetic)")
+_prop("C02", DECODE + [R_FLOW],
+      "BIP-340: " + _DEC + "R-FLOW: msg/msglen flow unmodified from sign_custom / verify through sign_internal and the challenge into sha256_write; "
+      "sha256_write's cursor discipline.",
+      "byte-for-byte equality with BIP-340, aux=NULL == zero aux, exact acceptance set (hash and curve arithmetic)")
+_prop("C03", DECODE,
+      "Encodings: " + _DEC,
+      "the DER grammar itself (minimal-length / padding predicates over byte values), hybrid parity rule, round-trip equalities")
+_prop("C04", DECODE + [R_FLOW],
+      "Key algebra: " + _DEC + "R-FLOW: n_pubkeys and the array reach secp256k1_hsort unmodified.",
+      "commutation of secret and public operations, correctness of heap sort beyond its length argument, lexicographic order")
+_prop("C05", [R_FLOW],
+      "Hash kernel, structural clause only: caller lengths reach secp256k1_sha256_write unmodified (tagged hash, HMAC) and "
+      "sha256_write moves its data pointer and remaining length together by the amount consumed (R-FLOW / R-CUR).",
+      "ALL field / scalar / group / ecmult exactness and cross-configuration bit-identity: statements about 256-bit values, out of reach of static analysis here (declared not applicable for those clauses)")
+_prop("C08", DECODE,
+      "Pedersen: " + _DEC,
+      "that the commitment is bG + vH, tally semantics, round-trips")
+_prop("C09", DECODE,
+      "Range-proof creation: " + _DEC,
+      "created proofs verify, bound the value, rewind (value-level)")
+_prop("C10", DECODE,
+      "Range-proof verification: " + _DEC,
+      "the Borromean ring equation and hash binding")
+_prop("C11", DECODE,
+      "Surjection proofs: " + _DEC,
+      "subset selection correctness, the ring equation")
+_prop("C12", DECODE + [R_FLOW],
+      "MuSig2: " + _DEC,
+      "equality with the BIP-327 functions, session validity, adapt/extract inverse (algebra)")
+_prop("C14", DECODE,
+      "ECDSA adaptor: " + _DEC,
+      "the adaptor and DLEQ equations, recover(decrypt) identity")
+_prop("C15", DECODE,
+      "Sign-to-contract / anti-exfil: " + _DEC,
+      "equality of the two nonce derivations' values, soundness of the commitment")
+_prop("C16", DECODE,
+      "Whitelist: " + _DEC,
+      "the ring equation, round-trip")
+_prop("C17", DECODE,
+      "Half-aggregation: " + _DEC,
       "the aggregate equation, incremental == one-shot equality (arithmetic over 256-bit values)")
+_prop("C18", DECODE,
+      "ECDH / ElligatorSwift: " + _DEC,
+      "agreement of both parties, the map and its inverse (field arithmetic)")
+_prop("C19", DECODE,
+      "Bulletproofs++: " + _DEC,
+      "completeness / soundness of the norm argument, generator determinism")
